@@ -64,11 +64,12 @@ func (c18) Thresholds(tier string) map[string]int64 {
 		"scripts-with-a-syntax-error-created-concurrently":       20,
 		"creation-from-a-reader-that-waits-for-another-creation": 16,
 		"shared-snapshot-unchanged-after-the-concurrent-phase":   16,
+		"128-runners-with-a-pending-command-each":                16,
 	}
 }
 
 func (c18) Rule() string {
-	return "case = one fresh child process under the race detector (cold ANTLR DFA / prediction-context caches, GOMAXPROCS=16): G in {2, 8, 16, 64} goroutines are released by one barrier; each creates 1-3 runners from different generated programs (parsing concurrently), registers functions and commands and steps them along a PRNG choice policy with PRNG runtime.Gosched() between steps; programs use markup, the random built-ins with seeds, visit counts, variables and commands; every runner runs a raw command whose handler reads its arguments later from a goroutine of its own (they must still be the words written in that runner's script), every second runner is first restored from ONE snapshot value shared by all goroutines, one script in five carries a planted syntax error (its creation must fail with its own error text while the others are created), and every host writes a property of its own into the attribute maps of each element it was handed (they are its values). One runner (goroutine 1's first) gets its script from a reader that delivers only after goroutine 0 has created its first runner; a 5-minute watchdog around the phase (normally a second or two) reports creations that block one another. Apart from that one ordered pair, during the concurrent phase the harness performs no synchronisation of its own (per-goroutine logs with monotonic time stamps, merged afterwards), so that it cannot hide a race. Afterwards the same (program, seed, choice policy) executions are repeated sequentially in another fresh process. Oracle: every concurrent execution has the digest of its sequential reference (elements, errors, final variables) and the parent finds zero race-detector reports with a ysgo/antlr frame in the GORACE log files. Non-trivial: >=2 goroutines each stepping >=1 runner whose steps interleave in the merged log. Distinct by hash of the interleaving prefix."
+	return "case = one fresh child process under the race detector (cold ANTLR DFA / prediction-context caches, GOMAXPROCS=16): G in {2, 8, 16, 64} goroutines are released by one barrier; each creates 1-3 runners from different generated programs (parsing concurrently), registers functions and commands and steps them along a PRNG choice policy with PRNG runtime.Gosched() between steps; programs use markup, the random built-ins with seeds, visit counts, variables and commands; every runner runs a raw command whose handler reads its arguments later from a goroutine of its own (they must still be the words written in that runner's script), every second runner is first restored from ONE snapshot value shared by all goroutines, one script in five carries a planted syntax error (its creation must fail with its own error text while the others are created), and every host writes a property of its own into the attribute maps of each element it was handed (they are its values). One runner (goroutine 1's first) gets its script from a reader that delivers only after goroutine 0 has created its first runner; a 5-minute watchdog around the phase (normally a second or two) reports creations that block one another. Apart from that one ordered pair, during the concurrent phase the harness performs no synchronisation of its own (per-goroutine logs with monotonic time stamps, merged afterwards), so that it cannot hide a race. After the phase, 128 further runners (created and stepped by 8 goroutines) each keep one command pending at the same time - a converted handler blocked on a gate, or the built-in wait: each must report that it is waiting for its command, and resume when its handler returns. Afterwards the same (program, seed, choice policy) executions are repeated sequentially in another fresh process. Oracle: every concurrent execution has the digest of its sequential reference (elements, errors, final variables) and the parent finds zero race-detector reports with a ysgo/antlr frame in the GORACE log files. Non-trivial: >=2 goroutines each stepping >=1 runner whose steps interleave in the merged log. Distinct by hash of the interleaving prefix."
 }
 
 func (c18) Assumptions() []string {
@@ -218,6 +219,69 @@ func (p c18) Run(c *core.Ctx) {
 		return
 	}
 	c.Feature("shared-snapshot-unchanged-after-the-concurrent-phase")
+	// ---- many runners of the process each keep a command pending at the same time (128 conversations waiting
+	// for their animations): every one of them waits for ITS command, none gets an error because of the others
+	{
+		const holders = 128
+		gate := make(chan struct{})
+		script := "title: Start\n---\nbefore\n<<hold 1>>\nafter\n===\n"
+		waitScript := "title: Start\n---\nbefore\n<<wait 3600>>\nafter\n===\n"
+		runners := make([]*mon.Real, holders)
+		problems := make([]string, holders)
+		var hw sync.WaitGroup
+		for w := 0; w < 8; w++ {
+			hw.Add(1)
+			go func(w int) {
+				defer hw.Done()
+				for i := w; i < holders; i += 8 {
+					src := script
+					if i%4 == 3 {
+						src = waitScript
+					}
+					rr, err, pan := mon.Create(nil, "", []string{src})
+					if err != nil || pan != "" {
+						problems[i] = "creation failed: " + fmt.Sprint(err) + pan
+						continue
+					}
+					if err := rr.DR.ConvertAndAddCommand("hold", func(float64) { <-gate }); err != nil {
+						problems[i] = "registration failed: " + err.Error()
+						continue
+					}
+					runners[i] = rr
+					if o := rr.Once(0); o.Kind != mon.KLine {
+						problems[i] = "first line: " + o.String()
+						continue
+					}
+					if o := rr.Once(0); o.Kind != mon.KWaiting {
+						problems[i] = "the call that started the command returned " + o.String() + " (want: waiting for the command)"
+					}
+				}
+			}(w)
+		}
+		hw.Wait()
+		for i := range problems {
+			if problems[i] == "" && runners[i] != nil {
+				if o := runners[i].Once(0); o.Kind != mon.KWaiting {
+					problems[i] = "a later poll returned " + o.String() + " while the command was still running"
+				}
+			}
+		}
+		close(gate)
+		for i := range problems {
+			if problems[i] == "" && i%4 != 3 {
+				if o := runners[i].Next(0); o.Kind != mon.KLine || o.Text != "after" {
+					problems[i] = "after the handler returned: " + o.String()
+				}
+			}
+		}
+		for i, pr := range problems {
+			if pr != "" {
+				c.Violate("with 128 runners of the process each keeping one command pending, a runner does not behave as it does alone", map[string]any{"runner": i, "problem": pr, "script": script})
+				return
+			}
+		}
+		c.Feature("128-runners-with-a-pending-command-each")
+	}
 	// ---- evidence from the merged logs
 	var merged []c18Step
 	steps := 0
